@@ -465,6 +465,68 @@ def detector_roundtrip(run, transform, p, desc, r, n):
                       % (tth[j], geo[j, 0], eta[j], geo[j, 1]), dict(desc, pars=p, peak=j))
 
 
+def columnfile_history(run, mods, p, desc, seed, idx):
+    """one columnfile, parameters changed between updates by the routes users have (parameters.set, the dictionary,
+    loadparameters, a new parameter object, setparameters): after every update the columns must obey Bragg's law for the
+    wavelength held NOW, |g| = ds, and project back onto the peaks with the geometry held NOW"""
+    transform, columnfile, parameters = mods
+    import os, tempfile
+    from ..common import WORK
+    r = rng(seed, "C02", idx, "cfhist")
+    n = 64
+    sc, fc, om = r.uniform(0, 2048, n), r.uniform(0, 2048, n), r.uniform(-360, 360, n)
+    cf = columnfile.colfile_from_dict({"sc": sc.copy(), "fc": fc.copy(), "omega": om.copy()})
+    cf.parameters = parameters.parameters(**p)
+    cur = dict(p)
+    fast = bool(idx % 2)
+    cf.updateGeometry(fast=fast)
+    for step in range(3):
+        q = gen_pars(rng(seed, "C02", idx, "cfhist", step), int(r.integers(8)), int(r.integers(1 << len(SW))))
+        how = ["set", "dict", "loadparameters", "assign", "setparameters"][int(r.integers(5))]
+        keys = ["wavelength", "distance", "y_center", "z_center", "tilt_x", "o11", "o12", "o21", "o22", "wedge", "chi", "omegasign"]
+        if how == "set":
+            for k in keys:
+                cf.parameters.set(k, q[k])
+                cur[k] = q[k]
+        elif how == "dict":
+            cf.parameters.parameters.update({k: q[k] for k in keys})
+            cur.update({k: q[k] for k in keys})
+        elif how == "loadparameters":
+            os.makedirs(os.path.join(WORK, "tmp"), exist_ok=True)
+            fd, fn = tempfile.mkstemp(prefix="c02_", suffix=".par", dir=os.path.join(WORK, "tmp"))
+            os.close(fd)
+            try:
+                parameters.parameters(**q).saveparameters(fn)
+                cf.parameters.loadparameters(fn)
+            finally:
+                os.remove(fn)
+            cur = dict(q)
+        elif how == "assign":
+            cf.parameters = parameters.parameters(**q)
+            cur = dict(q)
+        else:
+            cf.setparameters(parameters.parameters(**q))
+            cur = dict(q)
+        cf.updateGeometry(fast=fast)
+        lam = cur["wavelength"]
+        th = np.radians(np.asarray(cf.tth, F)) / 2
+        want = 2 * np.sin(th) / F(lam)
+        modg = np.sqrt(np.asarray(cf.gx, F) ** 2 + np.asarray(cf.gy, F) ** 2 + np.asarray(cf.gz, F) ** 2)
+        run.count("columnfile_history_steps")
+        d = dict(desc, history=how, step=step)
+        if (rel(cf.ds, want) > 1e-12 / lam).any() or (rel(modg, want) > 1e-12 / lam).any():
+            run.violation("columnfile:history:bragg", "after the parameters were changed through %s the columns do not obey "
+                          "Bragg's law / |g| = ds for the wavelength now held (%g)" % (how, lam), d)
+            return
+        ref = geom.forward(cur, sc, fc, om, (cur["t_x"], cur["t_y"], cur["t_z"]))
+        gtol = 1e-12 / lam
+        if max(np.abs(np.asarray(cf.gx, F) - ref["g"][:, 0]).max(), np.abs(np.asarray(cf.gy, F) - ref["g"][:, 1]).max(),
+               np.abs(np.asarray(cf.gz, F) - ref["g"][:, 2]).max()) > gtol:
+            run.violation("columnfile:history:geometry", "after the parameters were changed through %s the g-vector columns are "
+                          "not those of the geometry now held" % how, d)
+            return
+
+
 def one_case(run, seed, idx, flip, bits, mods):
     transform, gv_general, columnfile, parameters = mods
     r = rng(seed, "C02", idx)
@@ -480,6 +542,8 @@ def one_case(run, seed, idx, flip, bits, mods):
     cImageD11.cimaged11_omp_set_num_threads([1, 2, 4, 8, 16][idx % 5])
     laws_c(run, (transform, columnfile, parameters), p, desc, r, 200 if idx % 4 else 4000)
     cImageD11.cimaged11_omp_set_num_threads(4)
+    if idx % 4 == 1:
+        columnfile_history(run, (transform, columnfile, parameters), p, desc, seed, idx)
     both = inverse_law(run, (transform, gv_general), p, desc, r, n)
     axis_laws(run, gv_general, p, desc, rng(seed, "C02", idx, "axis"), 64)
     detector_roundtrip(run, transform, p, desc, r, 300)
@@ -513,6 +577,7 @@ def check(run, replay=None):
             bits = int(r.integers(1 << nb))
         one_case(run, run.seed, idx, flip, bits, mods)
     run.require_counter("inverse_roundtrips", 1000)
+    run.require_counter("columnfile_history_steps", 100)
     run.require_counter("inverse_unreachable", 100)
     run.require_counter("detector_roundtrips", 1000)
     run.require_counter("detector_roundtrips_tth>55", 100)
